@@ -221,6 +221,19 @@ CLAIMED['C18'] = dict(
     note='bounded as PopLayout; codes instead of real chains; read-back on centred non-covariate compositions',
     technique='TLA+ spec (InferenceIO.tla extending PopLayout.tla) model-checked with TLC; spec->code replay with coded chains',
     design='6/C18')
+CLAIMED['C15'] = dict(
+    engine='Predictive',
+    text='Predictive.tla defines the bag of (ID, time, observable) labels a predictive table must carry and transcribes the '
+         'three table constructions of chi; TLC checks they list every label exactly once with ascending times for every '
+         'request (model kind x outputs x unsorted / repeated times x sample size x covariates). Each request is executed: '
+         'labels, covariate and dose rows literal; integer-coded posterior datasets show that each posterior / averaged '
+         'predictive draw uses one joint (chain, draw) row of the selected individual; population-predictive individuals are '
+         'identified under scripted generators and checked by TLC with SampleAlgebra, the measurement stage numerically.',
+    note='NumPy primitives trusted; stage-wise identification (the marginal law of a two-stage sampler is outside the algebra); '
+         'RefSim for regimen rows',
+    technique='TLA+ specs (Predictive.tla, SampleAlgebra.tla) with TLC; spec->code replay of every request; code->spec check of '
+              'recorded sampler calls',
+    design='6/C15')
 
 NOT_YET = {
 }
